@@ -467,7 +467,6 @@ Fixpoint frag (names : list term) (pushed : list var) (p : alg) {struct p} : boo
                  && subsetv (inter (pushed ++ maybe a) (allvars q)) vs
              | _ => false
              end)
-      && (lz || hash_ok pushed b)
   | Project q _ | Distinct q =>
       (* elsewhere: only where no binding can be pushed in *)
       negb (nonempty pushed) && frag names pushed q
@@ -476,6 +475,7 @@ Fixpoint frag (names : list term) (pushed : list var) (p : alg) {struct p} : boo
       && efrag names (inter pushed (optl fv) ++ maybe q) e
       && negb (nonempty (inter (cmp_vars_e e) (bool_vars q)))
   | Graph _ q => frag names pushed q
+  | Slice _ _ => false      (* a sliced sub-SELECT: runs only *)
   end
 with efrag (names : list term) (pushed : list var) (e : expr) {struct e} : bool :=
   match e with
@@ -503,7 +503,7 @@ Proof.
   induction p; cbn [frag shape]; (split; [intros pushed F|try exact I]).
   - reflexivity.
   - destruct IHp1 as [IH1 _], IHp2 as [IH2 IHq].
-    apply andb_true_iff in F as [F _]. apply andb_true_iff in F as [F1 F2].
+    apply andb_true_iff in F as [F1 F2].
     rewrite (IH1 _ F1). cbn. apply orb_true_iff in F2 as [F2|F2]; [eauto|].
     destruct p2; try discriminate. apply andb_true_iff in F2 as [F2 _]. apply andb_true_iff in F2 as [_ F2].
     cbn. eauto.
@@ -522,6 +522,7 @@ Proof.
   - destruct IHp as [IH _]. exact IH.
   - destruct IHp as [IH _]. eauto.
   - destruct IHp as [IH _]. apply andb_true_iff in F as [_ F]. eauto.
+  - discriminate F.
 Qed.
 
 Lemma frag_shape names p : forall pushed, frag names pushed p = true -> shape p = true.
@@ -663,11 +664,11 @@ Section PD.
     - (* Join *)
       intros lazy p1 [IHp1 _] p2 [IHp2 [_ SUB2]]. assert (HPD : PD (Join lazy p1 p2)).
       { intros pushed F g0 c Ng Wc Dc. cbn [frag] in F.
-      apply andb_true_iff in F as [F12 Fh]. apply andb_true_iff in F12 as [F1 F2].
+      apply andb_true_iff in F as [F1 F2].
       pose proof (frag_shape _ _ _ F1) as S1.
       apply orb_true_iff in F2 as [F2|FP].
       2:{ (* a sub-SELECT as the right operand of a lazy join *)
-        destruct p2 as [ | | | | | | | |q vs| | ]; try discriminate FP.
+        destruct p2 as [ | | | | | | | |q vs| | | ]; try discriminate FP.
         apply andb_true_iff in FP as [FP Sv]. apply andb_true_iff in FP as [Lz Fq]. subst lazy.
         rewrite subsetv_in in Sv. cbn [SUB] in SUB2.
         pose proof (frag_shape _ _ _ Fq) as Sq. cbn [eval_td eval_bu].
@@ -707,20 +708,9 @@ Section PD.
           destruct (lookup v m1) eqn:L1.
           -- right. eapply maybe_sound; eauto. congruence.
           -- left. now apply Dc.
-      + (* hash join: a = evalPart(ctx, p1); b = set(evalPart(ctx, p2)); _join(a, b) *)
-        cbn in Fh. unfold hash_ok in Fh. apply andb_true_iff in Fh as [Df Uh].
+      + (* hash join: a = evalPart(ctx, p1); b = list(evalPart(ctx, p2)); _join(a, b) *)
         pose proof (IHp1 pushed F1 g0 c Ng Wc Dc) as P1.
         pose proof (IHp2 pushed F2 g0 c Ng Wc Dc) as P2.
-        assert (Nb : NoDup (eval_bu ds g0 p2)).
-        { apply df_sound; auto; try (split; auto); apply (proj1 Ng). }
-        assert (N2 : NoDup (join_ctx c (eval_bu ds g0 p2))).
-        { apply orb_true_iff in Uh as [U|E].
-          - apply NoDup_join_ctx; auto using bu_wf, un_sound.
-          - assert (pushed = []) by (destruct pushed; [reflexivity|discriminate]). subst pushed.
-            rewrite (dom_in_nil c Dc), join_ctx_nil by (apply bu_wf, S2). exact Nb. }
-        assert (N2' : NoDup (eval_td ds g0 c p2)).
-        { eapply Permutation_NoDup; [symmetry; exact P2|exact N2]. }
-        rewrite (dedup_NoDup _ N2').
         rewrite <- (hash_join_lists c _ _ Wc (bu_wf ds p1 S1 g0) (bu_wf ds p2 S2 g0)).
         etransitivity; [apply join_lists_perm_l; exact P1|apply join_lists_perm_r; exact P2].
       }
@@ -1057,6 +1047,9 @@ Section PD.
         rewrite join_ctx_nil.
         - apply dedup_perm. rewrite (IHp [] F g0 [] Ng Wc Dc). rewrite join_ctx_nil; [reflexivity|apply bu_wf, S].
         - intros m Im. apply (proj1 (dedup_in _ _)) in Im. eapply bu_wf; eauto. }
+      split; [exact HPD|split; [apply GEN; auto|exact I]].
+    - (* Slice: outside the fragment *)
+      intros n p _. assert (HPD : PD (Slice n p)) by (intros pushed F; discriminate F).
       split; [exact HPD|split; [apply GEN; auto|exact I]].
     - (* EVar *)
       intros v pushed _ g m1 full m2 _ _ _ _ H _. cbn. apply H. now left.
